@@ -216,11 +216,14 @@ def check_slice(ctx, sig, m, out, cn, pos, L, names, what, taste=True):
                     else:
                         nl = m.geo_low[cn] + (kl + 0.5) * dxn
                         nr = m.geo_low[cn] + (kr + 0.5) * dxn
-                        want = (vl * (nr - pos) + vr * (pos - nl)) / (nr - nl)
+                        with np.errstate(all="ignore"):
+                            want = (vl * (nr - pos) + vr * (pos - nl)) / (nr - nl)
                     mask = (hl & hr)[sx, sy]
+                    if fname == "ext" and exact:
+                        continue
                     g = arr[..., k]
                     w = want[sx, sy]
-                    okm = np.abs(g[mask] - w[mask]) <= 1e-11 * np.abs(w[mask])
+                    okm = mand.close(g[mask], w[mask], 1e-11)
                     if fname.startswith("aff_" + AX[cn]):
                         okm &= np.abs(g[mask] - mand.aff_value(m, cn, pos)) <= 1e-9 * (abs(mand.A0) + abs(mand.B0))
                     if not okm.all():
